@@ -476,6 +476,58 @@ impl<'g> ObjectView for DataRef<'g> {
     #[verifier::external_body]
     fn as_value(&self) -> (r: ObjAsValue<'_, Self>) { unimplemented!() }
 }
+/// the real NullObject (runtime.rs): no keys, nothing to find - what `null_object()` below wraps
+pub struct NullObject;
+impl ObjectView for NullObject {
+    open spec fn dom(&self) -> Set<Key> { Set::<Key>::empty() }
+    open spec fn find_spec(&self, path: Seq<Key>) -> Option<VId> { None }
+//@ item crates/core/src/runtime/runtime.rs :: impl ObjectView for NullObject::contains_key
+//@ props C04 C09 C18
+//@ sig fn contains_key(&self, _index: &str) -> (r: bool)
+//@ end
+//@ item crates/core/src/runtime/runtime.rs :: impl ObjectView for NullObject::get
+//@ props C04 C09 C18
+//@ sig fn get(&self, _index: &str) -> (r: Option<&dyn ValueView>)
+//@ end
+    #[verifier::external_body]
+    fn keys(&self) -> (r: KeyIter) { unimplemented!() }
+    #[verifier::external_body]
+    fn as_value(&self) -> (r: ObjAsValue<'_, Self>) { unimplemented!() }
+}
+
+/// a reference to a runtime answers as the runtime (the scope layers hold `&dyn Runtime` parents)
+impl<R: Runtime + ?Sized> Runtime for &R {
+    open spec fn lookup(&self, path: Seq<Key>) -> Option<VId> { (**self).lookup(path) }
+    open spec fn root_set(&self) -> Set<Key> { (**self).root_set() }
+//@ item crates/core/src/runtime/runtime.rs :: impl Runtime for &R::roots
+//@ props C18 C04
+//@ sig fn roots(&self) -> (r: RootSet)
+//@ end
+//@ item crates/core/src/runtime/runtime.rs :: impl Runtime for &R::try_get
+//@ props C18 C04
+//@ sig fn try_get(&self, path: &[ScalarCow]) -> (r: Option<ValueCow>)
+//@ end
+//@ item crates/core/src/runtime/runtime.rs :: impl Runtime for &R::get
+//@ props C18 C04
+//@ sig fn get(&self, path: &[ScalarCow]) -> (r: Result<ValueCow>)
+//@ end
+//@ item crates/core/src/runtime/runtime.rs :: impl Runtime for &R::set_global
+//@ props C18
+//@ sig fn set_global(&self, name: KString, val: Value) -> (r: Option<Value>)
+//@ end
+//@ item crates/core/src/runtime/runtime.rs :: impl Runtime for &R::set_index
+//@ props C18
+//@ sig fn set_index(&self, name: KString, val: Value) -> (r: Option<Value>)
+//@ end
+//@ item crates/core/src/runtime/runtime.rs :: impl Runtime for &R::get_index
+//@ props C18
+//@ sig fn get_index(&self, name: &str) -> (r: Option<ValueCow>)
+//@ end
+//@ item crates/core/src/runtime/runtime.rs :: impl Runtime for &R::registers
+//@ props C18
+//@ sig fn registers(&self) -> (r: &Registers)
+//@ end
+}
 pub struct RuntimeBuilder<'g> { pub globals: Option<DataRef<'g>> }
 /// NullObject: the empty object used when no data is given
 #[verifier::external_body]
